@@ -2,7 +2,19 @@ import Tahoe.Mutable.SerializerInv
 /-! C13 — one client serializes operations on a mutable node (property theorems).
 Model: Tahoe/Mutable/Serializer.lean; helper lemmas: SerializerLemmas.lean, SerializerInv.lean.
 Schedules = arbitrary lists of events `Op` (requests, completions of the operations' inner
-Deferreds with success or failure, eventual-queue turns), of any length. -/
+Deferreds with success or failure, colliding attempts, eventual-queue turns), of any length.
+
+## Coverage of the statement
+
+| clause of the statement | theorem(s) on the model | rest |
+|---|---|---|
+| within one client, operations on a node obtained through the same capability string … | `same_cap_same_node`, `same_cap_same_node_any_hint` (one node object, hence one `_serializer`, per cap string, whatever read-cap hint is passed), `cache_stable` | WeakValueDictionary collection between two lookups: not modelled; that `DirectoryNode` keeps using the one filenode: **correspondence/monitor only** |
+| … (reading the best version, overwriting, uploading, modifying, directory edits built on them) | every such operation is a `_do_serialized` request (`Op.req`); its kind does not matter to the queue | which public methods go through `_do_serialized` (seed C13-b: `DirectoryNode._read`): **monitor only** (reads requested right after edits) |
+| run one at a time, in request order | `starts_and_finishes_alternate`, `serial_order`, `successes_in_request_order` | |
+| none starts before the previous one finished | `serial_order`, `no_start_before_last_attempt`, `no_attempt_after_finish` (an operation = all of its attempts; seed C13-c) | that `_modify_and_retry` chains the next attempt into the operation's Deferred: **correspondence** (the real function is the callable in the scripted schedules) |
+| a failed operation does not block later ones | `failed_op_does_not_block`, `idle_means_all_done` | |
+| so concurrent directory edits through one client never lose each other's changes | `no_lost_edit`, `no_lost_directory_edit` (final contents = the successful modifiers folded in request order over what the first read) | each directory edit being such a modifier on a name map: C20; competing writers from other clients: C12 (monitor here: collision family) |
+-/
 namespace Tahoe.C13
 open Tahoe.Serializer
 
@@ -203,6 +215,30 @@ theorem no_lost_edit (ops : List Op) :
 
 example : (runOps [.req none, .req none, .req (some .ok), .fin 0 .ok, .fin 1 .fail, .turn]).core.content = [0, 2] := by
   decide
+
+/-- **successes are in request order**: the operations that finished successfully appear in the log
+(hence, by `no_lost_edit`, in the contents) in the order in which they were requested. -/
+theorem successes_in_request_order (ops : List Op) :
+    (succeeded (runOps ops).core.log).Pairwise (· < ·) := by
+  obtain ⟨n, hn⟩ := starts_and_finishes_alternate ops
+  exact (scan_succeeded_sorted _ 0 none _ hn (by intro j hj; cases hj)).2
+
+/-- **no lost directory edit**: read every operation `i` as a modifier `edit i` of some contents type
+(a directory's name map with `Adder` / `Deleter` / `MetadataSetter`, C20).  Under every schedule the
+node's contents are the modifiers of exactly the successful operations, folded over the initial
+contents in request order -- no edit is lost, none is applied twice or out of order. -/
+theorem no_lost_directory_edit {D : Type} (edit : Nat → D → D) (base : D) (ops : List Op) :
+    let s := runOps ops
+    s.core.content.foldl (fun d i => edit i d) base = (succeeded s.core.log).foldl (fun d i => edit i d) base ∧
+    s.core.content.Pairwise (· < ·) := by
+  intro s
+  have h := no_lost_edit ops
+  exact ⟨by simp only [s, h], by simp only [s, h]; exact successes_in_request_order ops⟩
+
+/-- a name map: op 0 adds "a", op 1 (fails) would add "b", op 2 deletes "a", op 3 adds "c" after a collision -/
+example : ((runOps [.req none, .req none, .req none, .req none, .fin 0 .ok, .fin 1 .fail, .fin 2 .ok, .retry 3, .fin 3 .ok]).core.content.foldl
+    (fun (d : List String) i => match i with
+      | 0 => d ++ ["a"] | 1 => d ++ ["b"] | 2 => d.filter (· != "a") | _ => d ++ ["c"]) ["keep"]) = ["keep", "c"] := by decide
 
 /-- once a mutable node has been created for a cap string it stays in the cache under its key -/
 theorem cache_stable (m : Maker) (key : String) (n : Nat) (h : m.cache.lookup key = some n)
